@@ -124,3 +124,62 @@ def to_settings(ms, excl_as_nodes=False):
 
 def ref_settings(ms):
     return {'src': ms['src'], 'tgt': ms['tgt'], 'excl': ms.get('excl', []), 'par': ms.get('par')}
+
+
+@st.composite
+def pattern_family_spec(draw, max_patterns=3):
+    """Settings shaped like the architecture-decision patterns the dedicated pattern encoders accept (so that those
+    encoders are actually exercised), optionally transposed and with some absent-node existence patterns"""
+    fam = draw(st.sampled_from(['combining', 'collapsed', 'assigning', 'assigning', 'partitioning', 'connecting',
+                                'permuting', 'unordered', 'unordered_repl']))
+    rep = draw(st.booleans())
+    excl = []
+    if fam == 'combining':
+        src = [{'conns': [1], 'rep': rep}]
+        tgt = [{'conns': [0, 1], 'rep': draw(st.booleans())} for _ in range(draw(st.integers(2, 4)))]
+    elif fam == 'collapsed':
+        src = [dict(draw(node_strategy()), rep=True)]
+        tgt = [dict(draw(node_strategy()), rep=True)]
+    elif fam == 'assigning':
+        k = draw(st.integers(0, 3))
+        m = draw(st.integers(0, 1))
+        src = [{'min': k, 'rep': rep} for _ in range(draw(st.integers(1, 3)))]
+        tgt = [{'min': m, 'rep': rep} for _ in range(draw(st.integers(1, 3)))]
+    elif fam == 'partitioning':
+        k = draw(st.integers(0, 2))
+        tconn = draw(st.sampled_from([[1], [0, 1]]))
+        src = [{'min': k, 'rep': rep} for _ in range(draw(st.integers(1, 3)))]
+        tgt = [{'conns': list(tconn), 'rep': draw(st.booleans())} for _ in range(draw(st.integers(1, 4)))]
+    elif fam == 'connecting':
+        n = draw(st.integers(2, 3))
+        src = [{'min': 0, 'rep': False} for _ in range(n)]
+        tgt = [{'min': 0, 'rep': False} for _ in range(n)]
+        excl = [[i, i] for i in range(n)]
+        if draw(st.booleans()):
+            excl += [[i, j] for i in range(n) for j in range(n) if i > j]
+    elif fam == 'permuting':
+        n = draw(st.integers(2, 4))
+        src = [{'conns': [1], 'rep': rep} for _ in range(n)]
+        tgt = [{'conns': [1], 'rep': rep} for _ in range(n)]
+    elif fam == 'unordered':
+        n = draw(st.integers(2, 4))
+        src = [{'conns': [draw(st.integers(1, n))], 'rep': rep}]
+        tgt = [{'conns': [0, 1], 'rep': draw(st.booleans())} for _ in range(n)]
+    else:
+        n = draw(st.integers(2, 3))
+        src = [{'conns': [draw(st.integers(1, 3))], 'rep': True}]
+        tgt = [{'min': 0, 'rep': True} for _ in range(n)]
+    if draw(st.integers(0, 3)) == 0:
+        src, tgt = tgt, src
+        excl = [[j, i] for i, j in excl]
+    patterns = [{'src': {}, 'tgt': {}}]
+    for _ in range(draw(st.integers(0, max_patterns-1))):
+        pat = {'src': {}, 'tgt': {}}
+        for side, nodes in (('src', src), ('tgt', tgt)):
+            for i in range(len(nodes)):
+                if draw(st.integers(0, 3)) == 0:
+                    pat[side][str(i)] = [0]
+        if pat not in patterns:
+            patterns.append(pat)
+    par = draw(st.sampled_from([None, None, None, 2, 3]))
+    return {'src': src, 'tgt': tgt, 'excl': excl, 'par': par, 'patterns': patterns, 'family': fam}
